@@ -400,14 +400,14 @@ def run(ck, tier, rng):
     oracle_rows(ck, rows, meta, st_class, rng)
     for e in expect[:3] + expect[len(expect) // 2: len(expect) // 2 + 3]:
         ck.sample({"op": e[0], "class": e[1], "value": repr(e[2]), "impl": list(e[3])}, limit=8)
-    if diffs and not any(v["concrete"] for v in ck.violations) and not ck.known_hits:
+    if diffs and not any(v["concrete"] for v in ck.violations):
         op, name, v, res, mo = first
         ck.violation("correspondence",
                      "generated Gallina (gen/GenC11.v over lib/PyVal.v) and pptx.oxml.simpletypes disagree on %d cases, e.g. %s.%s(%r): model=%s impl=%r" % (
                          diffs, name, "to_xml" if op == "w" else "from_xml", v, mo, res),
                      {"theorem_or_correspondence": "correspondence GenC11.v ~ oxml/simpletypes.py", "input": [op, name, repr(v)],
                       "model_outcome": mo, "impl_outcome": repr(res)}, concrete=False)
-    any_concrete = any(v["concrete"] for v in ck.violations) or bool(ck.known_hits)
+    any_concrete = any(v["concrete"] for v in ck.violations)
     ck.broken_build(oracle_found_concrete=any_concrete)
     return ck.finish(
         rule="every simple-type class x (generic python values of every type + its boundary values +-1 + floats adjacent to each rounding threshold of its unit conversion) for to_xml, and x %d lexical forms for from_xml; per attribute row the oracle checks W/Rej/RT on the grid and R on schema-valid examples; non-trivial = value is not an arbitrary foreign object" % len(READ_FORMS),
